@@ -12,7 +12,7 @@
 -/
 import AHP.Model.Search
 namespace Driver.C06
-open AHP AHP.Sexp
+open AHP AHP.G3 AHP.Sexp
 
 partial def toNode : Sexp → Option Node
   | .list (u :: t :: .list attrs :: .list cls :: txt :: ks) => do
